@@ -182,6 +182,8 @@ def run(ctx, rep):
             a, b = unc(strip_ids(e[2])), unc(strip_ids(e[3]))
 
             def is_size(x):
+                if isinstance(x, tuple) and x and x[0] != "field" and contains(x, lambda z: call_is(z, r"fs::Metadata::len$")):
+                    return True       # the captured size itself (a never-reassigned field resolves to the value it was built with)
                 cv = ctor_value(ctx, x)
                 return cv is not None and contains(cv, lambda z: call_is(z, r"fs::Metadata::len$")) \
                     and not field_assigned(g, P.live, x[2])
